@@ -32,6 +32,9 @@ use super::super::*;
 mod sexp;
 use sexp::Term;
 
+#[path = "/verif/harness/daemon/rig.rs"]
+mod rig;
+
 /// Name space the FSM harness expects from its `use super::*` (it is written as a child of
 /// `crate::fsm`): the `pub(crate)` items of `crate::fsm` plus that file's own imports.
 mod fsm_ctx {
@@ -202,6 +205,9 @@ fn run_line(rt: &tokio::runtime::Runtime, line: &str) -> String {
             }
         }
         return rt.block_on(run_probe(outs));
+    }
+    if t.head() == Some("wire") {
+        return rt.block_on(rig::run_wire(&t, true));
     }
     fsm_ctx::h::run_case_c08(line)
 }
